@@ -152,3 +152,38 @@ func ZZ_C08_K2() {
 	zzSameOut(oa4, ob4, "K2 block after recovery")
 	zzverif.Reach("K2 recovered")
 }
+
+// ZZ_C08_K3: the process dies after InitChain and before the Commit of block
+// 1 (nothing of the genesis state is durable yet): on restart the node
+// reports height 0, accepts InitChain again, and block 1 gives the
+// application hash of a node that never crashed.
+func ZZ_C08_K3() {
+	govp := ctrlertypes.Test1GovParams()
+	g := zzNewGenesisBanded(3, 2, govp)
+	a := g.start()
+	ha := a.emptyBlock(0)
+	c := g.start()
+	stage := zzverif.Choose("crash.stage", 3) // after InitChain | after BeginBlock | after EndBlock
+	if stage >= 1 {
+		c.begin(0, nil, nil)
+	}
+	if stage >= 2 {
+		c.app.EndBlock(abcitypes.RequestEndBlock{Height: 1})
+	}
+	dir := zzverif.CopyDir(c.dir)
+	var b *zzNode
+	ok := zzNoPanic("restart before the first commit", func() {
+		app := zzOpenApp(dir)
+		info := app.Info(abcitypes.RequestInfo{})
+		zzverif.Assert(info.LastBlockHeight == 0, "K3 nothing committed: height 0")
+		b = g.startOn(app, dir)
+	})
+	if !ok {
+		return
+	}
+	var hb []byte
+	if zzNoPanic("block 1 after the restart", func() { hb = b.emptyBlock(0) }) {
+		zzverif.Assert(zzverif.SameBytes(ha, hb), "K3 block 1 after re-initialisation: same application hash")
+		zzverif.Reach("K3 end")
+	}
+}
